@@ -232,6 +232,8 @@ type Sched struct {
 	dirty    []*Obj // value-keyed objects whose real state changes after the point (atomic words)
 }
 
+var execSync byte
+
 var (
 	cur      *Sched
 	epochCtr uint64
@@ -282,6 +284,7 @@ func Run(o Options, main func()) *Result {
 		o.MaxPoints = 200000
 	}
 	startWatchdog()
+	RaceAcquire(unsafe.Pointer(&execSync))
 	s := &Sched{opts: o, yield: make(chan *Thread), res: &Result{}, atomics: map[uintptr]*Obj{}, Locals: map[string]interface{}{}}
 	s.epoch = atomic.AddUint64(&epochCtr, 1)
 	s.useMark = o.UseMark
@@ -388,6 +391,8 @@ func (s *Sched) threadMain(t *Thread, fn func()) {
 			t.crash = r
 			t.stack = string(debug.Stack())
 		}
+		// everything this thread did happens-before the next execution
+		RaceReleaseMerge(unsafe.Pointer(&execSync))
 		t.done = true
 		raceDisable()
 		s.yield <- t
@@ -664,7 +669,15 @@ func GoLib(name string, fn func()) {
 func goImpl(name string, lib bool, fn func()) {
 	s := cur
 	parent := s.running
-	point(&Op{Kind: KGo, Note: name, Do: func() { s.spawn(parent, name, lib, fn) }})
+	// the go statement happens-before the start of the new goroutine; the
+	// goroutine itself is created by the scheduler, so the edge is made explicit
+	tok := new(byte)
+	RaceRelease(unsafe.Pointer(tok))
+	wrapped := func() {
+		RaceAcquire(unsafe.Pointer(tok))
+		fn()
+	}
+	point(&Op{Kind: KGo, Note: name, Do: func() { s.spawn(parent, name, lib, wrapped) }})
 }
 
 // SelfID is a stable identifier of the calling thread.
